@@ -45,7 +45,10 @@ def run(tier, argv):
     rep.cov["rule"] = ("9 node kinds x 3 positions x every ordered list of <= %s rule instances from a pool of 43 (in/out-of-range parameters, unknown and "
                        "duplicated names); expected verdict by Chk!Structure and Sem!Verdict; every permutation class must also agree with itself"
                        % ("2" if quick else "2 (full pool) and 3 (23-instance pool)"))
+    dbad = semcommon.diff_tier(work, rep, hbin, PROP, 30000 if quick else 1500000)
+    for b in dbad[:20]:
+        rep.violation(b, "%s: %s | %s" % (b["want"], b["schema"].replace("\n", "\\n")[:200], json.dumps(b["got"])[:160]))
     for b in bad[:40]:
         rep.violation(b, "%s: %s | want %s got %s %s" % (b["what"], b["schema"].replace("\n", "\\n")[:200], b["want"], json.dumps(b["got"])[:160], b.get("other", "")[:100]))
-    rep.violations = len(bad)
+    rep.violations = len(bad) + len(dbad)
     rep.finish()
